@@ -12,20 +12,22 @@ ALL = ("MolGraph", "StereoMolGraph", "CondensedReactionGraph", "StereoCondensedR
 PLAN = {
     "C10": [("copy", c, "quick", 1, ("view", "wf", "fresh", "source")) for c in ALL] + [("copy_constructor", c, "quick", 1, ("view", "wf", "fresh", "source")) for c in ALL]
            + [("subgraph", c, "quick", 1, ("fresh", "source")) for c in ("MolGraph", "CondensedReactionGraph")]
-           + [("enantiomer", "StereoMolGraph", "quick", 1, ("fresh", "source"))],
+           + [("enantiomer", "StereoMolGraph", "quick", 1, ("fresh", "source")), ("enantiomer", "StereoCondensedReactionGraph", "quick", 1, ("fresh", "source"), 4)],
     "C17": [("subgraph", c, "quick", 1, ("view", "wf")) for c in ("MolGraph", "CondensedReactionGraph")]
            + [("subgraph", c, "thorough", 2, ("view", "wf")) for c in ("MolGraph",)],
     # loops of SMG.enantiomer carry side-car invariants (vf/contracts/loop_invariants.py) -> unbounded; invert() enters through its contract
-    "C06": [("enantiomer", "StereoMolGraph", "quick", 1, ("view", "wf", "fresh", "source"))],
+    # 7th field: number of loops under invariant -> one task per loop (init + generic step) and one for the loop-free remainder
+    "C06": [("enantiomer", "StereoMolGraph", "quick", 1, ("view", "wf", "fresh", "source")),
+            ("enantiomer", "StereoCondensedReactionGraph", "quick", 1, ("view", "wf", "fresh", "source"), 4)],
     "C11": [("relabel_atoms(copy=True)", "MolGraph", "thorough", 1, ("view", "wf", "source"))],
 }
 
 
-def ob_derivation(rep, world, dname, cname, pid, bound, want, timeout):
+def ob_derivation(rep, world, dname, cname, pid, bound, want, timeout, focus=None):
     from ..contracts.loop_invariants import LOOPS
 
     verify.verify_derivation(rep.obs, world, cname, dname, D.DERIVATIONS[dname](), pid, timeout=timeout, iter_bound=bound, want=want, loop_contracts=LOOPS,
-                             callee_contracts=verify.DESCR_CONTRACTS)
+                             callee_contracts=verify.DESCR_CONTRACTS, focus_loop=focus)
     # keep the clauses that belong to this property (freshness clauses are named C10/...)
     rep.obs[:] = [o for o in rep.obs if o.name.startswith(pid + "/") or o.name.startswith("E1/")]
 
@@ -39,10 +41,16 @@ def tasks(pid, tier, timeout):
     out = []
     if pid == "C06":
         out.append(("ob_invert", (pid, timeout)))
-    for dname, cname, first, bound, want in PLAN.get(pid, []):
+    for dname, cname, first, bound, want, *nl in PLAN.get(pid, []):
         if first == "thorough" and tier == "quick":
             continue
-        out.append(("ob_derivation", (dname, cname, pid, bound, want, timeout)))
+        if nl:
+            for focus in range(nl[0] + 1):
+                if pid == "C10" and focus > 0:
+                    continue  # the loop obligations are reported once, under the property that owns the derivation
+                out.append(("ob_derivation", (dname, cname, pid, bound, want, timeout, focus)))
+        else:
+            out.append(("ob_derivation", (dname, cname, pid, bound, want, timeout)))
     return out
 
 
